@@ -186,12 +186,17 @@ func burnInTx(br *BlockResult, i int) string {
 func genSupplyHist(r *Rng, i int, tier string) []string {
 	nv := 1 + r.Intn(3)
 	na := 3
+	subMs := r.Chance(1, 3) // a third of the histories run on block times with a sub-millisecond part
 	var ops []string
 	add := func(s string, a ...any) { ops = append(ops, fmt.Sprintf(s, a...)) }
 	blk := func() {
 		dt := r.Pick(1, 2, 999, 1000, 1001, 1500, 5000, 60000, 3600000)
 		if r.Chance(1, 30) {
 			dt = r.Pick(86400000, 3*86400000, 22*86400000)
+		}
+		if subMs && r.Chance(1, 2) { // block times off the millisecond grid (the elapsed time is cut to whole milliseconds)
+			add("blk %d ns=%d", dt, r.Pick(1, 100000, 499999, 500000, 900000, 999999, r.Range(1, 999999)))
+			return
 		}
 		add("blk %d", dt)
 	}
